@@ -299,7 +299,66 @@ class SliceModel:
             if r:
                 return True, 'b + 1 with the character at b proved one byte wide (%s)' % w
             return False, 'index + 1 without a proof that the character at the index is one byte wide (%s)' % w
+        w = self._pos_plus_rest_offset(body, ao, b)
+        if w:
+            return True, w
         return False, 'index + something that is not the width of the character there'
+
+    # -- `self.current() + rest.find(pred).unwrap_or(rest.len())` with rest = self.chars.as_str()
+    def _rest_offset(self, body, op, proj=(), depth=0):
+        """the operand is a byte offset of a char boundary inside the unread rest `self.chars.as_str()` (0..=rest.len()):
+        returns the set of as_str() call blocks it was measured on, or None"""
+        if depth > 5:
+            return None
+        blocks = set()
+        origins = trace_operand(body, op, extra=proj, through_calls=set())
+        if not origins:
+            return None
+        for o in origins:
+            if o.kind != 'callres':
+                return None
+            c = o.data
+            cal = c.callee or ''
+            if cal == 'core::str::<impl str>::len' and not o.proj or cal in ('core::str::<impl str>::find', 'core::str::<impl str>::rfind') and o.proj == (('dc', 'Some'), ('f', 0)):
+                so = single_origin(trace_operand(body, c.args[0], through_calls=set()))
+                if so is None or so.kind != 'callres' or so.proj or not (so.data.callee or '').endswith("CharIndices::<'a>::as_str") or not self._is_self_field(body, so.data.args[0], self.chars_idx):
+                    return None
+                blocks.add(so.data.bb)
+            elif cal == 'std::option::Option::<T>::unwrap_or' and not o.proj:
+                x = self._rest_offset(body, c.args[0], (('dc', 'Some'), ('f', 0)), depth + 1)
+                y = self._rest_offset(body, c.args[1], (), depth + 1)
+                if x is None or y is None:
+                    return None
+                blocks |= x | y
+            elif c.callee == 'std::ops::FromResidual::from_residual' and o.proj[:1] == (('dc', 'Some'),):
+                continue
+            else:
+                return None
+        return blocks
+
+    def _pos_plus_rest_offset(self, body, ao, b):
+        if ao is None or ao.kind != 'callres' or ao.proj or ao.data.ruid is None:
+            return None
+        C = self.prog.by_id.get(ao.data.ruid)
+        if C is None or not self._is_position(C) or not self._is_self(body, ao.data.args[0]):
+            return None
+        blocks = self._rest_offset(body, b)
+        if not blocks:
+            return None
+        # the rest and the position must describe the same scanner state: nothing advances in this body
+        if not (body.arg_count >= 1 and body.locals[1]['ty'].startswith('&') and not body.locals[1]['ty'].startswith('&mut ')):
+            import r_term
+            tm = self.__dict__.get('_tm')
+            if tm is None:
+                tm = self._tm = r_term.TermModel(self.prog, self.roles)
+            for c in body.live_calls:
+                if c.ruid in tm.char_adv or (c.rdef or '').endswith('as std::iter::Iterator>::next') and 'CharIndices' in (c.rdef or ''):
+                    return None
+        return 'position() + (find(..) | len()) measured on chars.as_str(): the unread rest starts at the scanner position, and str::find / len return char boundaries of it'
+
+    def _is_self(self, body, op):
+        o = single_origin(trace_operand(body, op, through_calls=set()))
+        return o is not None and o.kind == 'param' and o.data == 1 and not o.proj and not body.is_closure
 
     # -- `self.current() + ch.len_utf8()` with `ch` from a non-advancing look at the next character
     def _clone_next_calls(self, g):
@@ -338,6 +397,10 @@ class SliceModel:
         for o in os_:
             if o.kind == 'callres' and o.data.bb in cn and o.proj[-1:] == (('f', 0),):
                 continue
+            if o.kind == 'callres' and o.data.ruid and o.proj[-3:] == (('dc', 'Some'), ('f', 0), ('f', 0)) and o.data.ruid != g.id:
+                P = self.prog.by_id.get(o.data.ruid)
+                if P is not None and self._is_peek(P) and self._is_self(v, o.data.args[0]):
+                    continue       # the index component of the scanner's own non-advancing look-ahead
             if o.kind == 'callres' and (o.data.callee or '') == 'core::str::<impl str>::len' and self._is_self_field(v, o.data.args[0], self.input_idx):
                 continue
             if o.kind == 'binop' and o.data[2]['op'].startswith('Sub'):
@@ -426,6 +489,31 @@ class SliceModel:
             for v, tb in t['targets']:
                 if v < 0x80:
                     removed.add((sb, tb, v))
+        # guards `if is_delim_char(ch)`: a local character predicate that accepts ASCII characters only sends every
+        # non-ASCII character down its false edge
+        pred_false = {}
+        for sb in sorted(body.live_blocks):
+            t = body.blocks[sb]['term']
+            if t['k'] != 'switch' or t.get('dty') != 'bool':
+                continue
+            so = single_origin(trace_operand(body, t['discr'], through_calls=set()))
+            if so is None or so.kind != 'callres' or so.proj or len(so.data.args) != 1 or not so.data.ruid:
+                continue
+            ao = single_origin(trace_operand(body, so.data.args[0], through_calls=set()))
+            if ao is None or (ao.kind, ao.key()[1], ao.proj) != char_key:
+                continue
+            g = self.prog.by_id.get(so.data.ruid)
+            if g is None or g.arg_count != 1 or g.locals[1]['ty'] != 'char' or g.locals[0]['ty'] != 'bool':
+                continue
+            import r_token
+            acc, cand = r_token.char_set(g)
+            if acc is None or any(v >= 0x80 for v in acc):
+                continue
+            pred_false[sb] = [tb for v, tb in t['targets'] if v == 0] or [t['otherwise']] if any(v == 0 for v, tb in t['targets']) else None
+            if pred_false[sb] is None:
+                del pred_false[sb]
+            else:
+                found = True
         if not found:
             return False, 'no switch on the item\'s character'
         # reachability without those edges
@@ -437,6 +525,9 @@ class SliceModel:
                 continue
             seen.add(x)
             t = body.blocks[x]['term']
+            if x in pred_false:
+                st.extend(pred_false[x])
+                continue
             if t['k'] == 'switch':
                 so = single_origin(trace_operand(body, t['discr'], through_calls=set()))
                 if so is not None and t.get('dty') == 'char' and (so.kind, so.key()[1], so.proj) == char_key:
